@@ -261,8 +261,32 @@ pub fn outcome_text(o: &Outcome) -> String {
     }
 }
 
+/// canonical text of a query result: rows in the order returned
+pub fn query_text(o: &Outcome) -> String {
+    match o {
+        Outcome::Ok(rows) => {
+            let mut s = String::from("ok");
+            for r in rows {
+                s.push('(');
+                s.push_str(&r.join(" "));
+                s.push(')');
+            }
+            s
+        }
+        Outcome::Err(_) => "err".into(),
+        Outcome::Panic(_) => "panic".into(),
+    }
+}
+
 /// Runs one history; returns (observation lines, annotated request line for the model).
 pub fn run_history(line: &str, work: &Path, detail: bool) -> (Vec<String>, String) {
+    run_history_ext(line, work, detail, false)
+}
+
+/// `with_mem`: the same statements are also run on `Database::new_in_memory()`; the line then
+/// carries `mout=` / `mtabs=` and, for the per-step queries of an optional
+/// `(queries (<step> <hexsql>) ...)` element, `qs=<idx>:<mem result>~~<disk result>;;...`.
+pub fn run_history_ext(line: &str, work: &Path, detail: bool, with_mem: bool) -> (Vec<String>, String) {
     let sx = Sexp::parse(line).expect("bad request");
     let items = sx.as_list().unwrap();
     let id = items[1].as_atom().unwrap().to_string();
@@ -272,16 +296,29 @@ pub fn run_history(line: &str, work: &Path, detail: bool) -> (Vec<String>, Strin
         .map(|a| a.as_atom().unwrap().to_string())
         .collect();
     let mut disk = Disk::open(work.join(format!("h{id}")), opts);
+    let mem = if with_mem { Some(Database::new_in_memory()) } else { None };
     let mut lines = vec![];
     let mut annotated: Vec<Sexp> = items[..4].to_vec();
+    let mut first_step = 4;
+    let mut queries: Vec<(usize, String)> = vec![];
+    if let Some(l) = items.get(4).and_then(|x| x.as_list()) {
+        if l.first().and_then(|a| a.as_atom()) == Some("queries") {
+            first_step = 5;
+            for q in &l[1..] {
+                let qv = q.as_list().unwrap();
+                queries.push((qv[0].as_atom().unwrap().parse().unwrap(), unhex_str(qv[1].as_atom().unwrap())));
+            }
+        }
+    }
     // name -> number of columns (for the physical scan)
     let mut ncols: BTreeMap<String, usize> = BTreeMap::new();
 
-    for (k, step) in items[4..].iter().enumerate() {
+    for (k, step) in items[first_step..].iter().enumerate() {
         let sv = step.as_list().unwrap();
         let kind = sv[0].as_atom().unwrap();
         let mut ann = step.clone();
         let mut out;
+        let mut mem_fields = String::new();
         if let Some(why) = &disk.dead {
             if k == 0 {
                 eprintln!("H{id}: initial open failed: {why}");
@@ -295,6 +332,9 @@ pub fn run_history(line: &str, work: &Path, detail: bool) -> (Vec<String>, Strin
         match kind {
             "create" | "view" | "index" | "drop" | "insert" | "delete" => {
                 let sql = unhex_str(sv[1].as_atom().unwrap());
+                if let Some(m) = &mem {
+                    mem_fields = format!("\tmout={}", outcome_text(&run_sql(&disk.rt, m, &sql)));
+                }
                 let o = disk.sql(&sql);
                 out = outcome_text(&o);
                 if kind == "create" && o.class() == "ok" {
@@ -422,10 +462,31 @@ pub fn run_history(line: &str, work: &Path, detail: bool) -> (Vec<String>, Strin
                 }
             }
         }
+        if let Some(m) = &mem {
+            let mut mt = vec![];
+            for n in &names {
+                let o = run_sql(&disk.rt, m, &format!("select * from {n}"));
+                mt.push(match &o {
+                    Outcome::Ok(rows) => format!("{n}={}", render_bag(rows)),
+                    Outcome::Err(_) => format!("{n}=absent"),
+                    Outcome::Panic(p) => format!("{n}=panic:{}", p.replace(['\t', '\n', ' '], "_")),
+                });
+            }
+            mem_fields.push_str(&format!("\tmtabs={}", mt.join(";")));
+            let mut qs = vec![];
+            for (qi, (at, sql)) in queries.iter().enumerate() {
+                if *at == k {
+                    let a = query_text(&run_sql(&disk.rt, m, sql));
+                    let b = query_text(&disk.sql(sql));
+                    qs.push(format!("{qi}:{a}~~{b}"));
+                }
+            }
+            mem_fields.push_str(&format!("\tqs={}", qs.join(";;")));
+        }
         let _ = snap_before;
         let rs_txt: Vec<String> = snap_rs.iter().map(|(t, r)| format!("{t}.{r}")).collect();
         lines.push(format!(
-            "H{id}.{k}\tout={out}\ttabs={}\tcnt={}\tman={}\tcat={}\trs={}\tdv={}\tphys={}",
+            "H{id}.{k}\tout={out}{mem_fields}\ttabs={}\tcnt={}\tman={}\tcat={}\trs={}\tdv={}\tphys={}",
             tabs.join(";"),
             cnts.join(";"),
             man.join(" "),
